@@ -289,7 +289,8 @@ MANIFEST = {
             "is -sum_j w_j sqrt(1-chi_j^2)(dz/dchi)_j (dV/dphi + 1/2 dof dm^2 Delta00).dphi/dz with "
             "the Jacobian of the scales in force after _updateGrid (compared with a freshly built "
             "grid), the action is U+K as documented, wall parameters are clipped into their bounds "
-            "and the first offset is pinned to zero.",
+            "and the first offset is pinned to zero."
+            " The real EffectivePotential.derivField on a temperature profile returns, at every point, the field gradient at that point's own temperature.",
     "note": "The statement 'pressure equals the free-energy difference' itself is a quadrature-"
             "convergence statement and is not decided; Nelder-Mead stubbed.",
 }
